@@ -444,7 +444,9 @@ EXTRA = {
     'C01': ' The BLAS guard is also interpreted on arrays with real NumPy '
            'dtypes (R1c); pointwise multiply / divide are evaluated on '
            'laid-out arrays in every aliasing pattern with arbitrary old '
-           'output, where= masks treated as possibly false (R4L).',
+           'output, where= masks treated as possibly false (R4L); copy() owns '
+           'its buffer in every layout (R5L); the scalars reaching _lincomb '
+           'keep their type (R4t).',
     'C03': ' Evaluated tier R11: about 410 operator / functional instances '
            'on model spaces are called out of place (input untouched) and in '
            'place on an output holding arbitrary symbols (same object, the '
@@ -454,6 +456,8 @@ EXTRA = {
            'difference operators on weighted / complex / discretized model '
            'spaces, plus adjoint.adjoint; weighted-space defects are known '
            'findings.',
+    'C04': ' Functional arithmetic (scalings, sums, translations) is '
+           'normalised like operator arithmetic.',
     'C06': ' Evaluated tier R8: derivative(x)(d) of nonlinear built-ins, '
            'arithmetic on them and block operators equals the symbolic '
            'differential of the evaluated A(x) on weighted model spaces.',
@@ -473,20 +477,29 @@ EXTRA = {
     'C12': ' R6: a point satisfying the optimality conditions (rewrite '
            'axioms on the proximal symbols) is returned unchanged by PDHG, '
            'Douglas-Rachford, forward-backward and proximal gradient '
-           'methods after 1-3 iterations.',
+           'methods after 1-3 iterations (relaxation lam != 1 included); R7: '
+           'the random-order Kaczmarz variant pairs every operator with its '
+           'own relaxation parameter and right-hand side.',
     'C14': ' uniform_partition_fromgrid is evaluated for all 64 forms of the '
-           'limit arguments on a 2-d grid.',
-    'C15': ' The dtype rule also runs through the public factories.',
+           'limit arguments on a 2-d grid; the index normaliser is interpreted '
+           'on every slice form (R3b).',
+    'C15': ' The dtype rule also runs through the public factories and '
+           'tracks fractional information through casts; complex constant '
+           'callables; element() owns its data (R4c).',
     'C16': ' Mixed grow / shrink shapes in the n-d rule; _offset_from_spaces '
-           'evaluated on 81 two-dimensional pairs.',
+           'evaluated on 81 two-dimensional pairs with signed offsets; axes '
+           'that keep their size with non-zero offset.',
     'C17': ' Two-output ufuncs with different output dtypes and nested '
-           'power-space broadcasting of the legacy wrappers are included.',
+           'power-space broadcasting of the legacy wrappers are included; '
+           'the dtype keyword of the legacy reductions.',
     'C18': ' The per-axis pre-processing factors are evaluated for every '
-           'shift pattern (R2b).',
+           'shift pattern (R2b); the planner rule follows destroyed arrays '
+           '(R5); wavelet adjoint scaling for every axes subset (R9).',
     'C19': ' The default surface normal is evaluated on generic tangents '
-           '(R8).',
+           '(R8); off-centre volumes among the coverage witnesses.',
     'C20': ' TensorSpace._astype is evaluated over weighting kinds, '
-           'exponents and target dtypes (R7d).',
+           'exponents and target dtypes (R7d); slicing of weighted spaces '
+           '(R7e).',
 }
 
 NOT_YET = 'check not implemented yet in this commit (DESIGN.md section 6 build order)'
